@@ -186,24 +186,42 @@ Definition sort_setof (chunks: list bytes) : list bytes :=
          sort_by bytes_ltb (pad_to m) chunks
   end.
 
-Definition min_tagset (alts: list ty) : tagset :=
-  match alts with
-  | [] => []
-  | a :: r => fold_left (fun acc x => if tagset_ltb (tagset_of' x) acc then tagset_of' x else acc) r (tagset_of' a)
+Definition last_tag (ts: tagset) : tagset := match rev ts with t :: _ => [t] | [] => [] end.
+Definition tagset_min (a b: tagset) : tagset := if tagset_ltb b a then b else a.
+
+(* cer SetEncoder._smallestOuterTag: the outermost tag; an untagged CHOICE counts for the
+   smallest outermost tag among its alternatives *)
+Fixpoint smallest_outer (T: ty) : tagset :=
+  match T with
+  | TChoice alts =>
+      (fix go (l: list ty) : tagset :=
+         match l with
+         | [] => []
+         | [a] => smallest_outer a
+         | a :: r => tagset_min (smallest_outer a) (go r)
+         end) alts
+  | _ => last_tag (tagset_of' T)
   end.
 
-(* SetEncoder._componentSortKey: CER static, DER by the chosen alternative *)
-Definition set_sort_key (dynamic: bool) (T: ty) (v: val) : tagset :=
+(* der SetEncoder._componentSortKey: the outermost tag of the alternative actually chosen *)
+Fixpoint chosen_outer (T: ty) (v: val) {struct T} : tagset :=
   match T, v with
-  | TChoice alts, VChoice i _ =>
-      if dynamic then tagset_of' (nth i alts TNull) else min_tagset alts
-  | TChoice alts, _ => min_tagset alts
-  | _, _ => tagset_of' T
+  | TChoice alts, VChoice i x =>
+      (fix go (l: list ty) (k: nat) : tagset :=
+         match l, k with
+         | a :: _, O => chosen_outer a x
+         | _ :: r, S k' => go r k'
+         | [], _ => []
+         end) alts i
+  | _, _ => last_tag (tagset_of' T)
   end.
+
+Definition set_sort_key (dynamic: bool) (T: ty) (v: val) : tagset :=
+  if dynamic then chosen_outer T v else smallest_outer T.
 
 (* a fresh SEQUENCE/SET object none of whose members is mandatory "is a value" from birth
-   (SequenceAndSetBase.isValue), so the placeholder that value.values() instantiates for an
-   absent component of such a type is encoded as present and empty *)
+   (SequenceAndSetBase.isValue), so the placeholder instantiated for an unassigned mandatory
+   component of such a type is encoded as present and empty *)
 Definition all_optional_container (T: ty) : bool :=
   match base_of T with
   | TSeq fs | TSet fs =>
